@@ -31,6 +31,19 @@ def run(chk):
     res = json.load(open(resf))
     for v in (res["violations"] or []):
         chk.violation("compare-vs-tuple-order", v, dict(kind="c16", detail=v))
+    # 2b. the producer of the search keys of that scope (createRegionSearchKey): the specification's bytes, fresh memory
+    tk = vlib.go_test("", "^TestVerifC16Keys$", env=dict(VERIF_IN=wd, VERIF_OUT=wd, VERIF_SEED=str(chk.seed)), timeout=600, race=True)
+    rk = os.path.join(wd, "c16k_result.json")
+    if not os.path.exists(rk) or tk["rc"] != 0:
+        v = vlib.classify_panic(tk["out"])
+        if v:
+            chk.violation(v["sig"], v["desc"], dict(kind="panic"))
+            return
+        raise vlib.MachineryError("C16 search-key driver failed:\n" + tk["out"][-3000:])
+    resk = json.load(open(rk))
+    for v in resk["violations"] or []:
+        chk.violation(v["sig"], v["desc"], dict(kind="c16-keys", detail=v))
+    chk.cov["search_keys_built_and_checked"] = resk["scenarios"]
     # 3. B2: observed signs validated by TLC against TupleCmp (chunks: one JVM per 50k lines)
     lines = open(os.path.join(wd, "c16_pairs.ndjson")).read().splitlines()
     validated = 0
